@@ -170,6 +170,9 @@ Ltac mate_tac ref mref nrefs :=
       replace (nrefs <=? mref) with false by (symmetry; apply Z.leb_gt; lia);
       reflexivity ] ].
 
+Lemma storage_not_reused sh : storage_reused sh = false.
+Proof. destruct sh; reflexivity. Qed.
+
 (** * Reader.Read of a written block *)
 Theorem decode_body nrefs r omit sh tags bin :
   valid_rec nrefs r = true -> build_aux (r_aux r) = Ok tags ->
@@ -180,7 +183,7 @@ Proof.
   pose proof (zlen_qual_bytes nrefs r (valid_rec_props _ _ Hv)) as [Hql _].
   clear Hv.
   remember (qual_bytes r) as qb eqn:Hqb.
-  unfold decode_record, body_of, bam_Read_nameLen, bam_Read_cigarLen, bam_Read_seqLen. rewrite <- Hqb.
+  unfold decode_record, body_of, bam_Read_nameLen, bam_Read_cigarLen, bam_Read_seqLen. rewrite storage_not_reused. rewrite <- Hqb.
   assert (Hcanon : canon r = mkRec (r_name r) (r_ref r) (r_pos r) (r_mapq r) (r_cigar r) (r_flags r) (r_mref r) (r_mpos r)
         (r_tlen r) (r_lseq r) (r_seq r) (Some qb) (r_aux r)) by (rewrite Hqb; reflexivity).
   rewrite Hcanon. clear Hcanon Hqb.
